@@ -1534,10 +1534,17 @@ func c18PSKCheckCoversEveryKey(p *Prog, r *Report, rule string) {
 				if rs.Value != nil {
 					vo = objOf(info, rs.Value)
 				}
-				isElem := func(e ast.Expr) bool {
+				var isElem func(e ast.Expr) bool
+				isElem = func(e ast.Expr) bool {
 					e = ast.Unparen(e)
 					if o := objOf(info, e); o != nil && o == vo {
 						return true
+					}
+					if o := objOf(info, e); o != nil && o != po {
+						// a local that holds the element
+						if rhs, _, _, sole := fc.SoleDefRHS(o); sole && ast.Unparen(rhs) != e {
+							return isElem(rhs)
+						}
 					}
 					if ix, isIx := e.(*ast.IndexExpr); isIx && objOf(info, ix.X) == po && ko != nil && objOf(info, ix.Index) == ko {
 						return true
